@@ -52,6 +52,9 @@ EW_UNMAPPED = {"tanh", "relu", "mulc", "neg", "sin"}
 ATTENTION_LIKE = {"softmax", "softmax_pos", "softmax_mod"}
 
 
+KW_INPUT_FNS = ("gelu", "gelu_tanh", "silu", "softmax", "relu")
+
+
 def prog_id(prog: dict) -> str:
     return hashlib.sha1(json.dumps(prog, sort_keys=True).encode()).hexdigest()[:10]
 
@@ -220,9 +223,12 @@ def _expr(s: dict, prog: dict) -> List[str]:
         fn = "U.scaled_dot_product_attention" if s["unit"] else "F.scaled_dot_product_attention"
         args = [s["q"], s["k"], s["v"]]
         kw = []
+        if s.get("qkv_kw"):
+            args = []
+            kw = [f"query={s['q']}", f"key={s['k']}", f"value={s['v']}"]
         if s["mask"] is not None:
             m = "mask_b" if s["mask"] == "bool" else "mask_f"
-            if s["mask_spell"] == "pos":
+            if s["mask_spell"] == "pos" and not s.get("qkv_kw"):
                 args.append(m)
             else:
                 kw.append(f"attn_mask={m}")
@@ -246,6 +252,9 @@ def _expr(s: dict, prog: dict) -> List[str]:
             "scale_bwd": f"U.scale_bwd({x}, 0.5)", "scale_fwd": f"U.scale_fwd({x}, 1.5)",
             "dropout_mod": f"self.drop{i}({x})", "layer_norm_plain_mod": f"self.lnp{i}({x})",
         }
+        if s.get("kw_input") and fn in KW_INPUT_FNS:
+            # the tensor operand passed by keyword (F.gelu(input=...)): still a data dependency of the node
+            return [f"{o} = " + table[fn].replace(f"({x}", f"(input={x}", 1)]
         return [f"{o} = {table[fn]}"]
     if op == "add":
         a = s["a"]
@@ -827,11 +836,15 @@ class _Builder:
             causal = mask is None and d(st.booleans())
             unit = "usdpa" in self.allow["extra"] and d(st.booleans())
             q = self.unary(x, ["linear"]) if d(st.booleans()) else x
+            qkv_kw = "kwtensors" in self.allow["extra"] and d(st.integers(0, 3)) == 0
             return self.emit(op="sdpa", q=q, k=x, v=x, mask=mask, mask_spell=d(st.sampled_from(self.allow["mask_spells"])), causal=causal,
-                             dropout_kw=d(st.booleans()), unit=unit, mult=d(st.sampled_from([1.0, 1.0, 2.0])) if unit else 1.0)
+                             dropout_kw=d(st.booleans()), unit=unit, mult=d(st.sampled_from([1.0, 1.0, 2.0])) if unit else 1.0,
+                             **({"qkv_kw": True} if qkv_kw else {}))
         if k == "ew":
             fn = d(st.sampled_from(self.allow["ew"]))
             s = dict(op="ew", fn=fn, x=x, i=self.idx())
+            if fn in KW_INPUT_FNS and "kwtensors" in self.allow["extra"] and d(st.integers(0, 3)) == 0:
+                s["kw_input"] = True
             if fn == "mulc":
                 s["c"] = d(st.sampled_from([0.5, 2.0, -1.5]))
             if fn == "gelu_mod":
@@ -934,14 +947,14 @@ class _Builder:
 
 
 ALLOW_UNIT = dict(
-    linear_spells=["pos", "nobias", "kwbias", "module", "module"],
+    linear_spells=["pos", "nobias", "kwbias", "allkw", "module", "module"],
     mask_spells=["kw"],
     ew=["tanh", "relu", "mulc", "gelu", "gelu_tanh", "gelu_mod", "silu", "softmax", "softmax_pos", "softmax_mod", "dropout0", "dropout_eval",
         "layer_norm", "layer_norm_mod", "layer_norm_plain_mod", "dropout_mod", "sin"],
     shape=["flat", "transpose2", "slice_cat", "rotate_half"],
     add_spells=["plus", "plus", "torch.add", "iadd"],
     plain_add=["fork", "param", "x2"],
-    extra=["inplace"],
+    extra=["inplace", "kwtensors"],
 )
 KINDS_UNIT = ["linear", "linear", "seq", "mlp2", "ew", "ew", "ew", "sdpa", "shape", "matmul", "conv1d", "scalar_add", "gate"]
 
@@ -997,7 +1010,7 @@ ALLOW_QUANT = dict(
     shape=["flat", "transpose2", "slice_cat", "rotate_half"],
     add_spells=["plus", "torch.add", "iadd"],
     plain_add=["fork", "param", "x2"],
-    extra=["usdpa", "inplace"],
+    extra=["usdpa", "inplace", "kwtensors"],
 )
 KINDS_QUANT = ["linear", "linear", "linear", "seq", "mlp2", "umlp2", "ulinear", "sdpa", "sdpa", "ew", "ew", "shape", "gate"]
 
@@ -1079,7 +1092,7 @@ ALLOW_TRACK = dict(
     shape=["flat", "transpose2", "slice_cat", "rotate_half", "stack_sum", "mul1", "index", "view"],
     add_spells=["plus", "torch.add"],
     plain_add=["fork", "fork", "param", "x2"],
-    extra=["inplace"],
+    extra=["inplace", "kwtensors"],
 )
 KINDS_TRACK = ["linear", "seq", "mlp2", "ew", "ew", "shape", "shape", "shape", "sdpa", "matmul", "intop", "scalar_add", "gate"]
 
